@@ -13,6 +13,7 @@ package roratelimit
 //@   binds source keyGetter interval count
 //@   calls GroupBy Interval Map MergeAll MergeMap Pipe2 PipeOp3 Take WindowWhen
 //@   params source
+//@   scope count interval keyGetter source
 //@   track call.*
 //@   ensures [is-the-documented-composition|C20] trace(call.GroupBy(keyGetter), call.Interval(interval), call.WindowWhen(res(call.Interval)), call.Take(count), call.Map(res(call.Take)), call.MergeAll(), call.PipeOp3(res(call.WindowWhen), res(call.Map), res(call.MergeAll)), call.MergeMap(res(call.PipeOp3)), call.Pipe2(source, res(call.GroupBy), res(call.MergeMap)))
 //@   ensures [returns-the-composition|C20] result == res(call.Pipe2)
